@@ -265,6 +265,8 @@ def pc_conditional(df, by, on, group_weights=None):
 
 def varpc_n(n):
     "Variance estimator for Simpson's index"
+    # floating point from the start: N(N-1)(N-2) and the factorial moments overflow 64-bit integers for N > 2e6
+    n = np.asarray(n, dtype=float)
     N = np.sum(n)
     p2_hat = np.sum(n * (n - 1)) / (N * (N - 1))
     p3_hat = np.sum(n * (n - 1) * (n - 2)) / (N * (N - 1) * (N - 2))
